@@ -67,6 +67,10 @@ func traverse(context Context, matchingNode *CandidateNode, operation *Operation
 			// e.g. a merge: the anchored node belongs to the original document and must not be written through the alias
 			return list.New(), nil
 		}
+		if matchingNode.Alias == nil {
+			// set with `alias = "name"` in this expression: which node it stands for is only known once the document is read again
+			return nil, fmt.Errorf("cannot look inside alias *%v: it does not point at an anchored node yet", matchingNode.Value)
+		}
 		matchingNode = matchingNode.Alias
 		return traverse(context, matchingNode, operation)
 	default:
